@@ -391,6 +391,8 @@ func generate(prop, tier string, r *rand.Rand, idx int) any {
 		return genC17(prop, tier, r)
 	case "C19":
 		return genC19(prop, tier, r)
+	case "C20":
+		return genC20(prop, tier, r)
 	case "C18":
 		return genC18(prop, tier, r)
 	case "C06":
@@ -934,4 +936,78 @@ func canonical(sc *Scn) *Scn {
 		}
 	}
 	return c
+}
+
+func genC20(prop, tier string, r *rand.Rand) *Scn {
+	g := newGen(prop, tier, r)
+	g.failP = 0.5
+	g.sleepP = 0.2
+	g.sc.Faulty = true
+	g.kinds = []string{"base", "retry", "retryfb", "func"}
+	budget := 2 + r.IntN(4)
+	wait := pick(r, []int{10, 20, 30, 40, 50, 3600000})
+	cancelInWait := r.IntN(3) == 0
+	if cancelInWait {
+		wait = 3600000
+		g.sleepP = 0
+	}
+	g.waits = []int{wait}
+	var n *NodeSpec
+	if r.IntN(2) == 0 {
+		for {
+			n = g.leaf(1)
+			if n.config().Retries >= 2 {
+				break
+			}
+			g.sc.Nodes = g.sc.Nodes[:len(g.sc.Nodes)-1]
+		}
+		n.Settings = []Setting{{Param: "retries", Form: "opt", Val: budget}, {Param: "wait", Form: "opt", Val: wait}}
+		n.Visits[0].Exec = g.execScript(budget, false)
+		if cancelInWait && len(n.Visits[0].Exec) < 2 {
+			n.Visits[0].Exec = append([]Outcome{{Fail: "sentinel"}}, n.Visits[0].Exec...)
+		}
+		g.sc.Root = n.ID
+	} else {
+		conc := r.IntN(4)
+		n = g.rootBatch(1+r.IntN(6), budget, wait, conc, false, nil)
+		for i := range n.Visits[0].Items {
+			n.Visits[0].Items[i].Exec = g.execScript(budget, false)
+		}
+		if cancelInWait {
+			it := &n.Visits[0].Items[r.IntN(len(n.Visits[0].Items))]
+			if len(it.Exec) < 2 {
+				it.Exec = append([]Outcome{{Fail: "sentinel"}}, it.Exec...)
+			}
+		}
+	}
+	if cancelInWait {
+		// find a retry wait in the model's timeline and cancel strictly inside it
+		mod := runModel(g.sc)
+		var gaps [][2]int64
+		scan := func(evs []MEv) {
+			for i := 1; i < len(evs); i++ {
+				if evs[i].Kind == "exec_start" && evs[i].A > 1 && evs[i-1].Kind == "exec_end" && evs[i].T >= 0 && evs[i].T > evs[i-1].T {
+					gaps = append(gaps, [2]int64{evs[i-1].T, evs[i].T})
+				}
+			}
+		}
+		mr := mod.Runs[0]
+		scan(mr.Main)
+		for _, mb := range mr.Batches {
+			for _, mi := range mb.Items {
+				scan(mi.Lane)
+			}
+		}
+		at := int64(1000 * (1 + r.IntN(1000))) // concurrent batch: any instant inside the first hour
+		if len(gaps) > 0 {
+			gp := pick(r, gaps)
+			at = gp[0]/1000 + 1 + r.Int64N((gp[1]-gp[0])/1000-1)
+		}
+		if at%10000 == 0 {
+			at++
+		}
+		g.sc.Ctx.Kind = "cancel"
+		g.sc.Canceller = &Canceller{Kind: "time", AtUs: at}
+	}
+	return g.sc
 }
